@@ -60,7 +60,7 @@ fn element(f: &mut Filler, info: &mut Info) -> RelativePathElement {
     let is_inverse = f.bool();
     let include_subtypes = f.bool();
     let tns = f.choose(&[0u16, 1, 9, 10, 99, 65535]);
-    let target_name = if f.chance(20) { QualifiedName::new(0, UAString::null()) } else { QualifiedName::new(tns, UAString::from(name(f, 8))) };
+    let target_name = if f.chance(20) { QualifiedName::new(if tns >= 10 { tns } else { 0 }, UAString::null()) } else { QualifiedName::new(tns, UAString::from(name(f, 8))) };
     if target_name.namespace_index >= 10 || (named && reference_type_id.namespace >= 10) {
         info.ns_ge_10 = true;
     }
@@ -110,12 +110,18 @@ fn roundtrip(ctx: &Ctx, c: &Case) -> PResult {
     if info.named_ref {
         ctx.class("named_reference_type");
     }
+    if path.elements.iter().flatten().any(|e| e.target_name.name.is_null() && e.target_name.namespace_index > 0) {
+        ctx.class("nameless_target_with_namespace");
+    }
     ctx.class(&format!("elements_{}", match n { 0 => "0", 1 => "1", 2..=5 => "2_5", _ => "many" }));
     let s = String::from(&path);
     match RelativePath::from_str(&s, &RelativePathElement::default_node_resolver) {
         Ok(p) if p == path => Ok(()),
         Ok(p) => {
-            let sig = if info.gt_in_name {
+            let nameless = path.elements.iter().flatten().any(|e| e.target_name.name.is_null() && e.target_name.namespace_index > 0);
+            let sig = if nameless && !info.gt_in_name && !info.newline {
+                "differs/nameless-target-with-namespace"
+            } else if info.gt_in_name {
                 "differs/gt-in-name"
             } else if info.newline {
                 "differs/newline-in-name"
@@ -175,7 +181,7 @@ fn long_tokens(ctx: &Ctx, c: &(u16, u8)) -> PResult {
 pub fn def() -> PropDef {
     PropDef {
         id: "C05",
-        rule: "RelativePath values (0..32 elements; the 27 named ns-0 reference types and string-identified types in namespaces 0,1,9,10,255,65535; flags free; target namespace 0,1,9,10,99,65535; names over an alphabet with every reserved character, digits, non-ASCII, newline) printed and parsed back with default_node_resolver; plus strings assembled from grammar tokens and tokens around the 256-byte limit into the parser; non-trivial = an element with namespace >= 10, a reserved character in a name, or a <...> reference; distinct = distinct generator bytes",
+        rule: "RelativePath values (0..32 elements; the 27 named ns-0 reference types and string-identified types in namespaces 0,1,9,10,255,65535; flags free; target namespace 0,1,9,10,99,65535; names over an alphabet with every reserved character, digits, non-ASCII, newline) printed and parsed back with default_node_resolver; plus strings assembled from grammar tokens and tokens around the 256-byte limit into the parser; non-trivial = an element with namespace >= 10, a reserved character in a name, or a <...> reference; distinct = distinct generator bytes; thorough adds a libFuzzer campaign (target c05_paths: strings that parse must print to a string that parses to the same path, segments over the parser's 256-byte limit excluded)",
         assumptions: &[
             "reference types that default_browse_name_resolver cannot name have no text form and are not generated",
             "a null target name is generated only with namespace 0 (the text form has no place for the index of a null name)",
@@ -188,6 +194,9 @@ pub fn def() -> PropDef {
                 part("parser_total", tier.pick(40_000, 1_000_000), proptest::collection::vec(any::<u8>(), 0..14), parser_total),
                 part("long_tokens", tier.pick(2_000, 20_000), (200u16..330, any::<u8>()), long_tokens),
             ]
+            .into_iter()
+            .chain(if tier == Tier::Thorough { Some(part_fuzz("libfuzzer_c05_paths", "c05_paths", 2_000_000, 600)) } else { None })
+            .collect()
         },
     }
 }
